@@ -121,7 +121,8 @@ def make_real(cfg, dirpath=None):
     if c == "Simple":
         return pc.SimpleCache()
     return pc.DiskCache(dirpath, max_size=cfg["max_size"], with_lru_cache=cfg.get("with_lru", True),
-                        lru_cache_size=cfg.get("lru_size", 128), lru_shared=cfg.get("shared", False))
+                        lru_cache_size=cfg.get("lru_size", 128), lru_shared=cfg.get("shared", False),
+                        use_cloudpickle=cfg.get("cloudpickle", True))
 
 
 def make_model(cfg):
@@ -891,6 +892,8 @@ def plan(tier, seed):
                 _tree(descs, {"cls": "Disk", "max_size": m, "K": 3, "with_lru": with_lru, "lru_size": lsz}, 6 if q else 7, 1,
                       head=[("put", 0, None), ("put", 1, None), ("put", 2, None)])
     _tree(descs, {"cls": "Disk", "max_size": 2, "K": 3, "with_lru": True, "lru_size": 2}, 4, 1, diag=True)
+    for with_lru in (False, True):  # the plain-pickle variant of the on-disk format
+        _tree(descs, {"cls": "Disk", "max_size": 2, "K": 3, "with_lru": with_lru, "lru_size": 2, "cloudpickle": False}, 4, 2)
     # ---- random longer histories, non-shared
     nh = 12 if q else 60
     i = 0
@@ -900,7 +903,7 @@ def plan(tier, seed):
             aw, dw = WEIGHTS[rep % 4]
             cfg = {"cls": cls, "max_size": None if cls == "Simple" else m, "K": 4, "aw": aw, "dw": dw,
                    "durs": [1.0, 2.0] if cls == "Hybrid" else None, "with_lru": rep % 2 == 0, "lru_size": [2, 128][rep % 4 // 2],
-                   "perm": rep % 4, "sparse": rep % 2 == 1}
+                   "perm": rep % 4, "sparse": rep % 2 == 1, "cloudpickle": rep % 3 != 1}
             descs.append({"kind": "random", "seed": seed, "i": i, "cfg": cfg, "n": 25 if cls == "Disk" else 150,
                           "len": [30, 60]})
             i += 1
